@@ -273,7 +273,7 @@ theorem go_ref_none (before : MatchList) (macros : Option (List (Bytes × Bytes)
   rw [interpolate.go]
   simp only [hB, hm]
 
-theorem takeWhile_all {α} (p : α → Bool) : ∀ (l : List α), (∀ x ∈ l, p x = true) → l.takeWhile p = l := by
+private theorem takeWhile_all {α} (p : α → Bool) : ∀ (l : List α), (∀ x ∈ l, p x = true) → l.takeWhile p = l := by
   intro l
   induction l with
   | nil => intro _; rfl
